@@ -11,6 +11,8 @@ echo "== demo on the unchanged tree"; PYTHONPATH=/repo /venv/bin/python $D/demo.
 git -C /repo apply "$(pwd)/$D/patch.diff" || { echo "patch does not apply"; exit 2; }
 echo "== demo on the changed tree"; PYTHONPATH=/repo /venv/bin/python $D/demo.py >/tmp/seed_mut.out 2>&1; echo "exit $?"; tail -3 /tmp/seed_mut.out
 echo "== test suite on the changed tree"; (cd /repo && /venv/bin/python -m pytest -q -p no:cacheprovider 2>&1 | tail -1)
+export H5_EVIDENCE_DIR="$(pwd)/.run/seed_evidence"   # never overwrite the committed evidence with a run on a changed tree
+mkdir -p "$H5_EVIDENCE_DIR"
 for P in "$@"; do
   echo "== ./check $P on the changed tree"
   ./check $P > /tmp/seed_check_$P.out 2>&1; echo "exit $?"
